@@ -11,7 +11,7 @@ LEVEL = 'proof'
 
 def native_domain(contract):
     if 'confidence_value' in contract.params:
-        return [{'confidence_value': v} for v in range(-50, 151)] + [{'confidence_value': v} for v in (-10**9, 10**9, 2**70)]
+        return [{'confidence_value': v} for v in range(-320, 421)] + [{'confidence_value': v} for v in (-10**9, 10**9, 2**70)]
     labels = {r[2] for sc in K.SCALES.values() for r in sc['rows']} | {l for sc in K.SCALES.values() for l in sc['no_value_labels']}
     extra = {'', ' ', 'none', 'NONE', 'Low ', ' Low', '11', '-1', '00', '1.0', 'High\n', 'Certain\x00', 'x' * 300}
     return [{'scale_value': s} for s in sorted(labels | extra)]
